@@ -1,7 +1,7 @@
 #!/bin/bash
-# confirm_seed.sh <id> <scratch worktree> : confirms a seeded change (patch applies, 265 tests pass with it,
+# [SEED_SRC=/tmp/mut_out2 SEED_SUFFIX=b] confirm_seed.sh <id> <scratch worktree> : confirms a seeded change (patch applies, 265 tests pass with it,
 # demo fails with it and passes without) and files it under /verif/seeded/<id>/
-id=$1; wt=$2; src=/tmp/mut_out/$id; out=/verif/seeded/$id
+id=$1; wt=$2; src=${SEED_SRC:-/tmp/mut_out}/$id; out=/verif/seeded/$id${SEED_SUFFIX:-}
 set -u
 cd $wt && git checkout -q -- . && git clean -qfd -e _build >/dev/null 2>&1
 git apply --check $src/patch.diff || { echo "$id: patch does not apply"; exit 1; }
